@@ -103,9 +103,9 @@ func runC13(c *core.Ctx, o Options) {
 			case *ssa.Send:
 				nSends++
 				chName := an.Render(x.Chan)
-				ob := c.Ob("Z1", fn.Name(), "bare send on "+chName, x.Pos())
+				ob := c.Ob("Z1", an.NameOf(fn), "bare send on "+chName, x.Pos())
 				switch {
-				case chName == "h.errors" && fn.Name() == "StopWithError":
+				case chName == "h.errors" && an.NameOf(fn) == "StopWithError":
 					if why := errorsDrainerPremises(c); why == "" {
 						ob.Ok("tabled exception: Run starts a drainer on every exit, the drainer receives until the channel is closed, both serve functions defer CloseErrorChan")
 					} else {
@@ -135,7 +135,7 @@ func runC13(c *core.Ctx, o Options) {
 					}
 					nSends++
 					chName := an.Render(st.Chan)
-					ob := c.Ob("Z1", fn.Name(), "select send on "+chName, x.Pos())
+					ob := c.Ob("Z1", an.NameOf(fn), "select send on "+chName, x.Pos())
 					ctxs := []string{}
 					for _, st2 := range x.States {
 						if st2.Dir == 2 {
@@ -174,13 +174,13 @@ func runC13(c *core.Ctx, o Options) {
 				return
 			}
 			src := an.Render(u.X)
-			ob := c.Ob("Z1", fn.Name(), "bare receive from "+src, u.Pos())
+			ob := c.Ob("Z1", an.NameOf(fn), "bare receive from "+src, u.Pos())
 			switch {
 			case doneContext(u.X) != "":
 				ob.Ok("waits for cancellation")
-			case src == "h.errors" && strings.HasPrefix(fn.Name(), "processRemainingErrors$"):
+			case src == "h.errors" && strings.HasPrefix(an.NameOf(fn), "processRemainingErrors$"):
 				ob.Ok("the drainer: ends when the channel is closed (comma-ok test), which both serve functions defer")
-			case src == "ch" && fn.Parent() == nil && fn.Name() == "WaitWithTimeout":
+			case src == "ch" && fn.Parent() == nil && an.NameOf(fn) == "WaitWithTimeout":
 				ob.Ok("inside a select with a timeout")
 			default:
 				ob.Fail("a bare channel receive can block forever; receive in a select with the owning context's Done()")
@@ -199,19 +199,19 @@ func runC13(c *core.Ctx, o Options) {
 			if g, ok := in.(*ssa.Go); ok {
 				if cal := an.StaticCallee(&g.Call); cal != nil && !seenBody[cal] {
 					seenBody[cal] = true
-					bodies = append(bodies, body{cal, "go in " + fn.Name()})
+					bodies = append(bodies, body{cal, "go in " + an.NameOf(fn)})
 				} else if cal == nil {
-					c.Ob("Z2", fn.Name(), "go statement with a dynamic callee", g.Pos()).Unknown("cannot enumerate the goroutine body")
+					c.Ob("Z2", an.NameOf(fn), "go statement with a dynamic callee", g.Pos()).Unknown("cannot enumerate the goroutine body")
 				}
 			}
 			if call, ok := in.(*ssa.Call); ok && an.CalleeIs(&call.Call, "errgroup", "Group.Go") {
 				if cl := an.ClosureFn(call.Call.Args[1]); cl != nil && !seenBody[cl] {
 					seenBody[cl] = true
-					bodies = append(bodies, body{cl, "eg.Go in " + fn.Name()})
+					bodies = append(bodies, body{cl, "eg.Go in " + an.NameOf(fn)})
 				} else if bound, ok := call.Call.Args[1].(*ssa.MakeClosure); ok {
 					if bf, ok := bound.Fn.(*ssa.Function); ok && !seenBody[bf] {
 						seenBody[bf] = true
-						bodies = append(bodies, body{bf, "eg.Go in " + fn.Name()})
+						bodies = append(bodies, body{bf, "eg.Go in " + an.NameOf(fn)})
 					}
 				}
 			}
@@ -232,7 +232,7 @@ func runC13(c *core.Ctx, o Options) {
 			for _, lp := range loops(f) {
 				name := b.fn.Name()
 				if f != b.fn {
-					name += "→" + f.Name()
+					name += "→" + an.NameOf(f)
 				}
 				ob := c.Ob("Z2", name, fmt.Sprintf("loop at %s has a cancellation-governed exit", lp[len(lp)-1].Comment), lp[len(lp)-1].Instrs[0].Pos())
 				why := loopExit(f, lp)
@@ -353,7 +353,7 @@ func loopExit(f *ssa.Function, lp []*ssa.BasicBlock) string {
 				cal := an.StaticCallee(&x.Call)
 				name := ""
 				if cal != nil {
-					name = cal.Name()
+					name = an.NameOf(cal)
 				} else if x.Call.IsInvoke() {
 					name = x.Call.Method.Name()
 				}
@@ -717,18 +717,18 @@ func checkNotification(c *core.Ctx, rule string, lib []*ssa.Function) {
 				body = root
 				root = root.Parent()
 			}
-			role := "goroutine of " + root.Name()
+			role := "goroutine of " + an.NameOf(root)
 			if fn == root {
-				role = root.Name() + " itself"
+				role = an.NameOf(root) + " itself"
 			}
-			ob := c.Ob(rule, root.Name(), "StopWithError call site in a "+role+" that the handler loop does not wait for", in.Pos())
+			ob := c.Ob(rule, an.NameOf(root), "StopWithError call site in a "+role+" that the handler loop does not wait for", in.Pos())
 			switch {
 			case fn == root:
 				// in the serve function: must come after the wait for its goroutines
 				waited := false
 				an.AllInstrs(root, func(i2 ssa.Instruction) {
 					if call, ok := i2.(*ssa.Call); ok {
-						if cal := an.StaticCallee(&call.Call); cal != nil && cal.Name() == "Wait" && an.Dominates(call, in) {
+						if cal := an.StaticCallee(&call.Call); cal != nil && an.NameOf(cal) == "Wait" && an.Dominates(call, in) {
 							waited = true
 						}
 					}
@@ -736,7 +736,7 @@ func checkNotification(c *core.Ctx, rule string, lib []*ssa.Function) {
 				if waited {
 					ob.Ok("after Wait(): all goroutines of the connection have ended (the drainer is running)")
 				} else {
-					ob.Fail("StopWithError in %s before its goroutines are waited for: if the handler loop has ended nobody receives the error and the caller blocks forever", root.Name())
+					ob.Fail("StopWithError in %s before its goroutines are waited for: if the handler loop has ended nobody receives the error and the caller blocks forever", an.NameOf(root))
 				}
 			case calls(body, isRun):
 				ob.Fail("the goroutine that runs the handler loop reports an error to that loop: the send can never be received")
@@ -767,7 +767,7 @@ func checkLockOrder(c *core.Ctx, rule string, fns []*ssa.Function) {
 	for _, f := range fns {
 		an.AllInstrs(f, func(in ssa.Instruction) {
 			if call, ok := in.(*ssa.Call); ok {
-				if cal := an.StaticCallee(&call.Call); cal != nil && cal.Pkg != nil && cal.Pkg.Pkg.Path() == "sync" && (cal.Name() == "Lock" || cal.Name() == "RLock") && len(call.Call.Args) > 0 {
+				if cal := an.StaticCallee(&call.Call); cal != nil && cal.Pkg != nil && cal.Pkg.Pkg.Path() == "sync" && (an.NameOf(cal) == "Lock" || an.NameOf(cal) == "RLock") && len(call.Call.Args) > 0 {
 					if fa, ok := call.Call.Args[0].(*ssa.FieldAddr); ok {
 						if direct[f] == nil {
 							direct[f] = map[*types.Var]bool{}
@@ -832,7 +832,7 @@ func checkLockOrder(c *core.Ctx, rule string, fns []*ssa.Function) {
 				return
 			}
 			acquired := map[*types.Var]bool{}
-			if cal := an.StaticCallee(cc); cal != nil && cal.Pkg != nil && cal.Pkg.Pkg.Path() == "sync" && (cal.Name() == "Lock" || cal.Name() == "RLock") {
+			if cal := an.StaticCallee(cc); cal != nil && cal.Pkg != nil && cal.Pkg.Pkg.Path() == "sync" && (an.NameOf(cal) == "Lock" || an.NameOf(cal) == "RLock") {
 				if fa, ok := cc.Args[0].(*ssa.FieldAddr); ok {
 					acquired[an.FieldOf(fa)] = true
 				}
@@ -979,7 +979,7 @@ func checkTimerRoutines(c *core.Ctx, s *sess, rule string) {
 					}
 				}
 			})
-			c.Check(ok, rule, g.Name(), "tests the session context right after every wake-up", g.Pos(), "TakeTimeout; select { case <-s.ctx.Done(): return; default: }", "the timer goroutine does not test s.ctx.Done() after its wait: it keeps sending after the session ended")
+			c.Check(ok, rule, an.NameOf(g), "tests the session context right after every wake-up", g.Pos(), "TakeTimeout; select { case <-s.ctx.Done(): return; default: }", "the timer goroutine does not test s.ctx.Done() after its wait: it keeps sending after the session ended")
 			// and closes its timer on exit
 			closes := false
 			an.AllInstrs(g, func(in ssa.Instruction) {
@@ -987,7 +987,7 @@ func checkTimerRoutines(c *core.Ctx, s *sess, rule string) {
 					closes = true
 				}
 			})
-			c.Check(closes, rule, g.Name(), "releases its timer when it ends", g.Pos(), "defer timer.Close()", "the timer is not closed when the goroutine ends")
+			c.Check(closes, rule, an.NameOf(g), "releases its timer when it ends", g.Pos(), "defer timer.Close()", "the timer is not closed when the goroutine ends")
 		}
 	}
 }
